@@ -215,6 +215,22 @@ fn edge_case(len: usize) {
     }
 }
 
+/// quick variant: small_mul alone at exactly 62 limbs: 3 * (2^3968 - 1) needs 63 limbs => None
+#[cfg(not(feature = "alloc"))]
+#[kani::proof]
+#[kani::unwind(64)]
+fn c12_capacity_edge_small_mul() {
+    let mut x = VecType::new();
+    x.try_resize(CAP, u64::MAX).unwrap();
+    let r = small_mul(&mut x, 3);
+    assert!(r.is_none(), "C12 small_mul reports overflow of the capacity");
+    assert!(x.len() == CAP);
+    let mut y = VecType::new();
+    y.try_resize(CAP, u64::MAX).unwrap();
+    let r = small_add(&mut y, 1);
+    assert!(r.is_none() && y.len() == CAP, "C12 small_add reports overflow of the capacity");
+}
+
 #[kani::proof]
 #[kani::unwind(64)]
 fn c12_capacity_edge_small_ops() {
